@@ -7,18 +7,15 @@ res() { echo "$1" >> "$D/confirm.log"; }
 : > "$D/confirm.log"
 git apply --check "$D/patch.diff" && res "patch_applies_to_clean_head=yes" || { res "patch_applies_to_clean_head=NO"; exit 1; }
 git apply "$D/patch.diff"
-cp "$D/demo.rs" tests/seed_demo_$M.rs
 cargo test --workspace --offline -j 6 --no-run > /dev/null 2>&1
 for attempt in 1 2 3 4; do
   # (some of the repository's own tests occasionally hang under load: bounded and retried)
   timeout -k 5 180 cargo test --workspace --offline -j 6 --no-fail-fast -- --skip test_follow > "$D/confirm.suite.log" 2>&1; src=$?
   [ $src -ne 124 ] && [ $src -ne 137 ] && break
 done
-res "suite_exit_status=$src (attempt $attempt)"
+res "suite_exit_status_with_mutant=$src (attempt $attempt; 0 = the whole existing suite passes)"
+cp "$D/demo.rs" tests/seed_demo_$M.rs
 grep -E "^test result" "$D/confirm.suite.log" | head -3 >> "$D/confirm.log"
-# the suite includes the demo now (tests/ dir); count failures outside the demo
-fails=$(grep -E "^test .* FAILED" "$D/confirm.suite.log" | grep -v seed_demo | wc -l)
-res "suite_failures_other_than_demo_with_mutant=$fails"
 timeout 600 cargo test --offline -j 6 --test seed_demo_$M > "$D/confirm.demo_with.log" 2>&1; rc1=$?
 res "demo_with_mutant_rc=$rc1"
 git checkout -q -- src Cargo.toml 2>/dev/null; git checkout -q -- .
